@@ -167,6 +167,10 @@ def run(run):
         nsess = 2 if quick else 12
         for s in range(nsess):
             lines = [gen_query().replace("\n", " ") for _ in range(rng.randint(2, 6))]
+            if s == 0:
+                # always: a line that does not parse between lines that do, all of it in the pipe at once (a paste)
+                ok1, ok2 = rng.choice(DOCQ[1::2]), rng.choice(DOCQ[1::2])
+                lines = [ok1, "FROM method_declaration AS md WHERE SELECT md", ok2, "SELECT nothing", ok1]
             payload = "".join(l + "\n" for l in lines) + ":quit\n"
             args = ["query", "--project", proj.dir, "--stdin", "--output", "json", "--disable-metrics"]
             for mode in ("piped", "incremental"):
